@@ -141,6 +141,8 @@ def compare_segments(o, ref_segments, path, S, arcs="plumbing"):
             b = lib.sample(twin)
             atol = 1e-9 * max(S, abs(ref["rx"]), abs(ref["ry"]))
             for pa, pb in zip(a, b):
+                if pa is None and pb is None:
+                    continue  # both evaluations overflow (coordinates beyond ~1e150): the plumbing is the same
                 if pa is None or pb is None or not core.pclose(pa, pb, atol):
                     return o.violation("arc-plumbing", "segment %d arc differs from Arc(%r, %r, %r, %r, %r, %r, %r): %r vs %r" % (
                         i, ref["s"], abs(ref["rx"]), abs(ref["ry"]), ref["rot"], ref["fa"], ref["fs"], ref["e"], pa, pb))
